@@ -293,22 +293,23 @@ Section RelaxProofs.
     - destruct (IH _ _ H) as [E|[I X]]; [left; exact E|right; split; [right; exact I|exact X]].
   Qed.
 
-  Lemma relax_none_lemma : forall c_ok verr vers, relax_npm V parses matches is_pre dif LNone c_ok verr vers = None.
+  Lemma relax_none_lemma : forall c_ok verr base vers, relax_npm V parses matches is_pre dif LNone c_ok verr base vers = None.
   Proof. reflexivity. Qed.
 
-  (* the common shape of a successful relaxation *)
-  Lemma relax_some_inv : forall l c_ok verr vers op best,
-    relax_npm V parses matches is_pre dif l c_ok verr vers = Some (op, best) ->
+  (* the common shape of a successful relaxation; from = the version the upgrade is measured from *)
+  Lemma relax_some_inv : forall l c_ok verr base vers op best,
+    relax_npm V parses matches is_pre dif l c_ok verr base vers = Some (op, best) ->
     l <> LNone /\
-    exists lst nx ab pre mid,
+    exists lst nx ab pre mid from,
       highest_match V parses matches vers = Some lst /\
+      relax_from V parses matches base vers = Some from /\
       vers = pre ++ lst :: mid ++ nx :: ab /\
       In best (nx :: ab) /\
-      allows l (dov lst nx) = true /\
-      allows l (dov lst best) = true /\
-      (op = Caret -> Z.ltb (diff_code (dov lst nx)) 4 = true).
+      allows l (dov from nx) = true /\
+      allows l (dov from best) = true /\
+      (op = Caret -> Z.ltb (diff_code (dov from nx)) 4 = true).
   Proof.
-    intros l c_ok verr vers op best H. unfold relax_npm in H.
+    intros l c_ok verr base vers op best H. unfold relax_npm in H.
     destruct (level_eqb l LNone) eqn:EL; [discriminate|].
     split; [intros E; subst; discriminate|].
     destruct c_ok; cbn [negb] in H; [|discriminate].
@@ -316,34 +317,37 @@ Section RelaxProofs.
     destruct (scan (rev vers) [] None true) as [[olst onext] np'] eqn:ES.
     destruct onext as [[nx ab]|]; [|destruct olst; discriminate].
     destruct olst as [lst|]; [|discriminate].
-    destruct (allows l (dov lst nx)) eqn:EA; cbn [negb] in H; [|discriminate].
     destruct (scan_top_vers _ _ _ _ _ ES) as [HH [pre [mid EV]]].
-    exists lst, nx, ab, pre, mid. split; [exact HH|]. split; [exact EV|].
-    destruct (diff_eqb (dov lst nx) DiffMajor) eqn:EM.
+    set (from := match base with Some b => b | None => lst end) in *.
+    assert (HF : relax_from V parses matches base vers = Some from).
+    { unfold relax_from, from. destruct base; [reflexivity|exact HH]. }
+    destruct (allows l (dov from nx)) eqn:EA; cbn [negb] in H; [|discriminate].
+    exists lst, nx, ab, pre, mid, from. split; [exact HH|]. split; [exact HF|]. split; [exact EV|].
+    destruct (diff_eqb (dov from nx) DiffMajor) eqn:EM.
     - (* one major step: level must be major *)
       apply diff_eqb_eq in EM. rewrite EM in EA. apply allows_diffmajor_inv in EA. subst l.
       cbn [diff_eqb] in H. inversion H; subst.
       split; [|split; [apply allows_major_all|split; [apply allows_major_all|intros _; rewrite EM; reflexivity]]].
       destruct (best_loop_cases Major nx DiffMinor np' ab nx _ eq_refl) as [E|[I _]]; [rewrite E; left; reflexivity|right; exact I].
-    - assert (EB : bloop l lst (dov lst nx) np' ab nx = best /\
-                   op = (if Z.leb (diff_code DiffPatch) (diff_code (dov lst nx)) then Tilde else Caret)) by (inversion H; auto).
+    - assert (EB : bloop l from (dov from nx) np' ab nx = best /\
+                   op = (if Z.leb (diff_code DiffPatch) (diff_code (dov from nx)) then Tilde else Caret)) by (inversion H; auto).
       destruct EB as [EB EO]. clear H.
-      assert (HT : op = Caret -> Z.ltb (diff_code (dov lst nx)) 4 = true).
+      assert (HT : op = Caret -> Z.ltb (diff_code (dov from nx)) 4 = true).
       { intros HT. rewrite HT in EO. change (diff_code DiffPatch) with 4%Z in EO.
-        destruct (Z.leb_spec 4 (diff_code (dov lst nx))); [discriminate|]. apply Z.ltb_lt. assumption. }
-      destruct (best_loop_cases l lst (dov lst nx) np' ab nx best EB) as [E|[I [d [Ed Ad]]]].
+        destruct (Z.leb_spec 4 (diff_code (dov from nx))); [discriminate|]. apply Z.ltb_lt. assumption. }
+      destruct (best_loop_cases l from (dov from nx) np' ab nx best EB) as [E|[I [d [Ed Ad]]]].
       + rewrite E. split; [left; reflexivity|]. split; [exact EA|]. split; [exact EA|exact HT].
       + split; [right; exact I|]. split; [exact EA|]. split; [|exact HT].
         unfold dif_or_other. rewrite Ed. exact Ad.
   Qed.
 
-  Lemma relax_level_checked_lemma : forall l c_ok verr vers op best,
-    relax_npm V parses matches is_pre dif l c_ok verr vers = Some (op, best) ->
-    exists lst, highest_match V parses matches vers = Some lst /\ allows l (dov lst best) = true.
+  Lemma relax_level_checked_lemma : forall l c_ok verr base vers op best,
+    relax_npm V parses matches is_pre dif l c_ok verr base vers = Some (op, best) ->
+    exists from, relax_from V parses matches base vers = Some from /\ allows l (dov from best) = true.
   Proof.
-    intros l c_ok verr vers op best H.
-    destruct (relax_some_inv _ _ _ _ _ _ H) as [_ [lst [nx [ab [pre [mid [HH [_ [_ [_ [A _]]]]]]]]]]].
-    exists lst. auto.
+    intros l c_ok verr base vers op best H.
+    destruct (relax_some_inv _ _ _ _ _ _ _ H) as [_ [lst [nx [ab [pre [mid [from [_ [HF [_ [_ [_ [A _]]]]]]]]]]]]].
+    exists from. auto.
   Qed.
 
   (* strictly sorted list: everything after a position is greater *)
@@ -355,13 +359,13 @@ Section RelaxProofs.
     - apply andb_true_iff in HS as [_ S]. eapply IH; eauto.
   Qed.
 
-  Lemma relax_strictly_up_lemma : forall l c_ok verr vers op best,
+  Lemma relax_strictly_up_lemma : forall l c_ok verr base vers op best,
     ssorted cmp vers = true ->
-    relax_npm V parses matches is_pre dif l c_ok verr vers = Some (op, best) ->
+    relax_npm V parses matches is_pre dif l c_ok verr base vers = Some (op, best) ->
     exists lst, highest_match V parses matches vers = Some lst /\ cmp lst best = Lt.
   Proof.
-    intros l c_ok verr vers op best HS H.
-    destruct (relax_some_inv _ _ _ _ _ _ H) as [_ [lst [nx [ab [pre [mid [HH [EV [IB _]]]]]]]]].
+    intros l c_ok verr base vers op best HS H.
+    destruct (relax_some_inv _ _ _ _ _ _ _ H) as [_ [lst [nx [ab [pre [mid [from [HH [_ [EV [IB _]]]]]]]]]]].
     exists lst. split; [exact HH|].
     rewrite EV in HS.
     assert (L : ltb cmp lst best = true).
@@ -375,17 +379,21 @@ Section RelaxProofs.
 
   Hypothesis diff_classified : forall a b, cmp a b = Lt -> classified (dov a b) = true.
 
-  Lemma relax_range_lemma : forall l c_ok verr vers op best,
+  (* the resolved version is not above the highest match *)
+  Hypothesis cmp_le_lt_trans : forall a b c, cmp a b <> Gt -> cmp b c = Lt -> cmp a c = Lt.
+
+  Lemma relax_range_lemma : forall l c_ok verr base vers op best,
     ssorted cmp vers = true ->
-    relax_npm V parses matches is_pre dif l c_ok verr vers = Some (op, best) ->
+    (forall b lst, base = Some b -> highest_match V parses matches vers = Some lst -> cmp b lst <> Gt) ->
+    relax_npm V parses matches is_pre dif l c_ok verr base vers = Some (op, best) ->
     valid_level l = true ->
-    exists lst, highest_match V parses matches vers = Some lst /\
-      forall v, range_admits V dif cmp op best v = true -> allows l (dov lst v) = true.
+    exists from, relax_from V parses matches base vers = Some from /\
+      forall v, range_admits V dif cmp op best v = true -> allows l (dov from v) = true.
   Proof.
-    intros l c_ok verr vers op best HS H HD.
-    destruct (relax_some_inv _ _ _ _ _ _ H) as [_ [lst [nx [ab [pre [mid [HH [EV [_ [AN [A HC]]]]]]]]]]].
-    exists lst. split; [exact HH|]. intros v HR.
-    apply (allows_compose_lemma V dov comp diff_first_component l lst best v A).
+    intros l c_ok verr base vers op best HS HB H HD.
+    destruct (relax_some_inv _ _ _ _ _ _ _ H) as [_ [lst [nx [ab [pre [mid [from [HH [HF [EV [_ [AN [A HC]]]]]]]]]]]]].
+    exists from. split; [exact HF|]. intros v HR.
+    apply (allows_compose_lemma V dov comp diff_first_component l from best v A).
     unfold range_admits in HR. apply andb_true_iff in HR as [_ HR].
     destruct l; cbn [valid_level] in HD; try discriminate.
     - apply allows_major_all.
@@ -394,13 +402,18 @@ Section RelaxProofs.
     - destruct op.
       + apply andb_true_iff in HR as [H1 H2].
         destruct (dov best v); cbv in H1, H2 |- *; congruence.
-      + (* a caret range under level patch would need an unclassified step lst -> nx *)
+      + (* a caret range under level patch would need an unclassified step from -> nx *)
         exfalso. specialize (HC eq_refl).
-        assert (L : ltb cmp lst nx = true).
-        { rewrite EV in HS. eapply ssorted_app_after; [exact HS|]. apply in_or_app. right. left. reflexivity. }
-        assert (C : classified (dov lst nx) = true).
-        { apply diff_classified. unfold ltb in L. destruct (cmp lst nx); congruence. }
-        destruct (dov lst nx); cbv in AN, HC, C; congruence.
+        assert (L : cmp lst nx = Lt).
+        { assert (L' : ltb cmp lst nx = true).
+          { rewrite EV in HS. eapply ssorted_app_after; [exact HS|]. apply in_or_app. right. left. reflexivity. }
+          unfold ltb in L'. destruct (cmp lst nx); congruence. }
+        assert (L2 : cmp from nx = Lt).
+        { unfold relax_from in HF. destruct base as [b|].
+          - inversion HF; subst. eapply cmp_le_lt_trans; [eapply HB; eauto|exact L].
+          - rewrite HH in HF. inversion HF; subst. exact L. }
+        assert (C : classified (dov from nx) = true) by (apply diff_classified; exact L2).
+        destruct (dov from nx); cbv in AN, HC, C; congruence.
   Qed.
 End RelaxProofs.
 
